@@ -633,6 +633,14 @@ func runBigC04(c *Ctx) {
 		cfgs = append(cfgs, Cfg{Cache: true}, Cfg{Async: 1, Lower: true, Ext: ".v1.obj"})
 	}
 	item := 0
+	// one very large object (beyond 32 MiB once serialised) in a compressed collection
+	item++
+	if item%c.NShards == c.Shard {
+		for _, v := range bigValues(c, Cfg{Compress: true}, 33<<20+5, true) {
+			c.Violation(v)
+		}
+		c.Distinct("states", "bigvalue|33MiB")
+	}
 	for _, cfg := range cfgs {
 		for _, n := range sizes {
 			for _, rep := range []bool{true, false} {
